@@ -23,6 +23,12 @@ theorem mapsAtCls_tup_some {ts o xs} (h : iterItems o = some xs) :
   · rename_i h'; rw [h] at h'; cases h'
   · rename_i xs' h'; rw [h] at h'; cases h'; rfl
 
+theorem mapsAtCls_nt_some {c o xs} (h : iterItems o = some xs) :
+    mapsAtCls w (.nt c) o = mapsAtClsT w (w.ntTys c) xs := by
+  rw [mapsAtCls]; split
+  · rename_i h'; rw [h] at h'; cases h'
+  · rename_i xs' h'; rw [h] at h'; cases h'; rfl
+
 theorem mapsAtClsL_iff (t : Ty) (xs : List Obj) :
     mapsAtClsL w t xs = true ↔ ∀ x ∈ xs, mapsAtCls w t x = true := by
   induction xs with
@@ -275,6 +281,15 @@ theorem struct_agree_aux (hws : w.SupU false)
         | none => rfl
         | refuseCreate => rfl
         | refuseResolve => rfl
+      | nt c =>
+        cases hit : iterItems o with
+        | none => rw [stF_nt_none w c1 hit, stF_nt_none w c2 hit]
+        | some xs =>
+          rw [stF_nt_some w c1 hit, stF_nt_some w c2 hit]
+          have hlt := iterItems_lt hit
+          rw [mapsAtCls_nt_some w hit] at hsc
+          rw [stFT_congr w c1 c2 (w.ntTys c) xs hsc (fun t' ht' x hx hh =>
+            IHo t' x (by have := List.sizeOf_lt_of_mem hx; omega) (ntTys_supU w hws c t' ht') hh)]
 
 /-- **C06 core (structuring).** -/
 theorem struct_agree (hws : w.SupU false)
